@@ -217,26 +217,30 @@ class RawAccessPoint(TransmissionControlObject):
         return super(RawAccessPoint, self).getsockopt(option)
 
     def poll(self, event, timeout):
-        if self.state.SHUTDOWN:
-            raise err.Error(errno.ESHUTDOWN)
-        if event not in ("recv", "send"):
-            raise err.Error(errno.EINVAL)
-        return super(RawAccessPoint, self).poll(event, timeout) is not None
+        with self.lock:  # state check and wait must be atomic for close()
+            if self.state.SHUTDOWN:
+                raise err.Error(errno.ESHUTDOWN)
+            if event not in ("recv", "send"):
+                raise err.Error(errno.EINVAL)
+            return super(RawAccessPoint, self).poll(
+                event, timeout) is not None
 
     def send(self, send_pdu, flags):
-        if self.state.SHUTDOWN:
-            raise err.Error(errno.ESHUTDOWN)
-        log.debug("{0} send {1}".format(str(self), send_pdu))
-        super(RawAccessPoint, self).send(send_pdu, flags)
-        return self.state.ESTABLISHED is True
+        with self.lock:  # state check and wait must be atomic for close()
+            if self.state.SHUTDOWN:
+                raise err.Error(errno.ESHUTDOWN)
+            log.debug("{0} send {1}".format(str(self), send_pdu))
+            super(RawAccessPoint, self).send(send_pdu, flags)
+            return self.state.ESTABLISHED is True
 
     def recv(self):
-        if self.state.SHUTDOWN:
-            raise err.Error(errno.ESHUTDOWN)
-        try:
-            return super(RawAccessPoint, self).recv()
-        except IndexError:
-            raise err.Error(errno.EPIPE)
+        with self.lock:  # state check and wait must be atomic for close()
+            if self.state.SHUTDOWN:
+                raise err.Error(errno.ESHUTDOWN)
+            try:
+                return super(RawAccessPoint, self).recv()
+            except IndexError:
+                raise err.Error(errno.EPIPE)
 
     def close(self):
         super(RawAccessPoint, self).close()
@@ -288,11 +292,13 @@ class LogicalDataLink(TransmissionControlObject):
             return self.peer > 0
 
     def poll(self, event, timeout):
-        if self.state.SHUTDOWN:
-            raise err.Error(errno.ESHUTDOWN)
-        if event not in ("recv", "send"):
-            raise err.Error(errno.EINVAL)
-        return super(LogicalDataLink, self).poll(event, timeout) is not None
+        with self.lock:  # state check and wait must be atomic for close()
+            if self.state.SHUTDOWN:
+                raise err.Error(errno.ESHUTDOWN)
+            if event not in ("recv", "send"):
+                raise err.Error(errno.EINVAL)
+            return super(LogicalDataLink, self).poll(
+                event, timeout) is not None
 
     def sendto(self, message, dest, flags):
         if self.state.SHUTDOWN:
@@ -301,17 +307,22 @@ class LogicalDataLink(TransmissionControlObject):
             raise err.Error(errno.EDESTADDRREQ)
         if len(message) > self.send_miu:
             raise err.Error(errno.EMSGSIZE)
-        send_pdu = pdu.UnnumberedInformation(dest, self.addr, data=message)
-        super(LogicalDataLink, self).send(send_pdu, flags)
-        return self.state.ESTABLISHED is True
+        with self.lock:  # state check and wait must be atomic for close()
+            if self.state.SHUTDOWN:
+                raise err.Error(errno.ESHUTDOWN)
+            send_pdu = pdu.UnnumberedInformation(
+                dest, self.addr, data=message)
+            super(LogicalDataLink, self).send(send_pdu, flags)
+            return self.state.ESTABLISHED is True
 
     def recvfrom(self):
-        if self.state.SHUTDOWN:
-            raise err.Error(errno.ESHUTDOWN)
-        try:
-            rcvd_pdu = super(LogicalDataLink, self).recv()
-        except IndexError:
-            raise err.Error(errno.EPIPE)
+        with self.lock:  # state check and wait must be atomic for close()
+            if self.state.SHUTDOWN:
+                raise err.Error(errno.ESHUTDOWN)
+            try:
+                rcvd_pdu = super(LogicalDataLink, self).recv()
+            except IndexError:
+                raise err.Error(errno.EPIPE)
         return (rcvd_pdu.data, rcvd_pdu.ssap) if rcvd_pdu else (None, None)
 
     def close(self):
